@@ -69,6 +69,14 @@ THEOREMS = [
     'C17_fill_array_short_rejected_any',
     'C17_lattice_no_opt_rejected_any',
     'C17_arrives_options',
+    'C17_surplus_surface_params_exact',
+    'C17_fill_array_trailing_numbers',
+    'C17_facet_skipped_cells_unchecked',
+    'C17_surface_rejection_class',
+    'C17_anonymous_surface_rejections',
+    'C17_tr_arity_error_class',
+    'C17_fill_transformation_length',
+    'C17_lattice_transformation_length',
     'C17_finished_run_is_clean',
 ]
 TRUSTED = [
